@@ -250,6 +250,12 @@ def sortOk (lt : β → β → Bool) (key : α → β) (input result : List α) 
 def unionOk (eqv : α → α → Bool) (xs ys result : List α) : Bool :=
   result.all (fun r => decide (r ∈ xs ++ ys)) && (xs ++ ys).all (fun z => result.any (fun r => eqv r z))
 
+/-- `union`, duplicates between the lists: "if there is a duplication between list-1 and list-2, only one of
+    the duplicate instances is in the result" (duplicates inside one list may or may not be repeated): the
+    result holds no more elements matching `z` than the list that has most of them -/
+def unionTight (eqv : α → α → Bool) (xs ys result : List α) : Bool :=
+  (xs ++ ys).all (fun z => decide (result.countP (eqv z) ≤ max (xs.countP (eqv z)) (ys.countP (eqv z))))
+
 /-- `intersection` as a set: only elements of the first list that match something in the second;
     every such element is in the result or represented there by an element matching it
     (duplicates under the test may or may not be repeated) -/
@@ -332,6 +338,9 @@ inductive Fn where
   | eqTo (o : Obj) | ltThan (n : Int)                          -- (lambda (x) (equal x 'o)), (lambda (x) (< x n))
   | eq | eql | equal | lt | le | gt | ge | numEq | charEq | charLt  -- binary, boolean
   | sameParity                                                 -- (lambda (a b) (= (mod a 2) (mod b 2)))
+  -- a test that treats its arguments differently (for the set functions; first list over 0..9, second over
+  -- 10..19): (lambda (a b) (if (< a 10) (if (< b 10) (= a b) (= (+ a 10) b)) (if (< b 10) nil (= a b))))
+  | dir10
   | add | sub | cons | list | max                              -- n-ary, value
   -- user lambdas that themselves call sequence functions (re-entrancy through other forms), on
   -- elements that are proper lists: (lambda (x) (count 'o x)), (find 'o x), (position 'o x),
@@ -390,6 +399,9 @@ def Fn.call : Fn → List Obj → Option Obj
   | .charEq, [.chr a, .chr b] => some (ofBool (a = b))
   | .charLt, [.chr a, .chr b] => some (ofBool (a < b))
   | .sameParity, [.int a, .int b] => some (ofBool (a % 2 = b % 2))
+  | .dir10, [.int a, .int b] => some (ofBool (
+      if a < 10 then (if b < 10 then decide (a = b) else decide (a + 10 = b))
+      else (if b < 10 then false else decide (a = b))))
   | .add, [] => some (.int 0)
   | .add, [.int a] => some (.int a)
   | .add, [.int a, .int b] => some (.int (a + b))
@@ -650,11 +662,13 @@ def rassoc (p : Obj → Bool) (alist : List Obj) : Option Obj :=
 def every (f : List Obj → Obj) (seqs : List (List Obj)) : Obj :=
   ofBool ((tuples seqs).all (fun tup => truthy (f tup)))
 
-/-- `some`. slip documents the result as a boolean ("returns true if the predicate … returns true at
-    least once", Return: boolean) where the language returns the predicate's value; the model
-    follows slip's documentation. -/
-def some' (f : List Obj → Obj) (seqs : List (List Obj)) : Obj :=
-  ofBool ((tuples seqs).any (fun tup => truthy (f tup)))
+/-- the value of the first tuple on which the function is true; `nil` when there is none -/
+def firstTruthy (f : List Obj → Obj) : List (List Obj) → Obj
+  | [] => .nil
+  | t :: ts => if truthy (f t) then f t else firstTruthy f ts
+
+/-- `some`: "returns the first non-nil value which is returned by an invocation of predicate" -/
+def some' (f : List Obj → Obj) (seqs : List (List Obj)) : Obj := firstTruthy f (tuples seqs)
 
 /-- `notany` -/
 def notany (f : List Obj → Obj) (seqs : List (List Obj)) : Obj :=
